@@ -37,7 +37,8 @@ ASSUMPTIONS = [
     "the simulator's own unit table (peers.UNITS: documented length and force unit per calculator) and CODATA-2018 constants are the reference; differences to phonopy's older CODATA values (~1e-8) are far below the 1e-5 tolerance",
     "peers author the pieces of input that phonopy's writers leave to the user (QE namelists, SIESTA ChemicalSpeciesLabel, TURBOMOLE job directory) exactly as documented",
     "for output formats that carry no atomic positions a permuted/duplicated/stale delivery is undetectable by design; only count and truncation faults are asserted there",
-    "cp2k (needs cp2k-input-tools) and crystal's structure round trip (its reader parses CRYSTAL output, not the input its writer produces) are excluded from the file-level steps; wien2k takes part with structure files only; all unit sets are still checked",
+    "cp2k (structure reader needs cp2k-input-tools), crystal (its reader parses CRYSTAL output, not the input its writer produces) and fleur (written files cannot be read back: recorded finding) run a forces-only protocol: the peer takes displaced supercells from phonopy's objects, only the force output is a file; wien2k takes part with structure files only (no peer for its symmetry-reduced force format); all unit sets are still checked",
+    "agreement of the restarted reader's frequencies with the reference is asserted to max(2e-5 of the eigenvalue scale, FORCE_SETS print quantum 5e-11 force units / displacement)",
 ]
 FAULT_KINDS = ["permute", "duplicate", "missing", "extra", "truncate", "stale", "relaxation"]
 
@@ -73,7 +74,7 @@ def gen_spec(seed, index, tier):
     calc = calcs[index % len(calcs)] if rng.random() < 0.8 else rng.choice(calcs)
     names = ["nacl_prim", "cscl", "hcp", "bct", "tric", "mono", "wurtzite", "rutile_mixed", "nacl_mixed_out", "ortho_c", "rhombo_hex", "nacl", "si", "rutile", "perovskite"]
     w = World.generate(seed, names=names, max_atoms=rng.choice([8, 16, 16, 24]))
-    faulty = index % 3 != 0
+    faulty = (index // len(calcs)) % 3 != 0  # not index % 3: len(calcs) is a multiple of 3 and would tie the fault family to the calculator
     faults = []
     if faulty:
         faults = sorted(rng.sample(FAULT_KINDS, rng.randint(1, 2)))
@@ -136,6 +137,34 @@ def child_displace(args):
     c0 = w.unitcell()
     cell = PhonopyAtoms(symbols=c0.symbols, cell=np.array(c0.cell) / L, scaled_positions=c0.scaled_positions)
     out = {"steps": [], "violations": []}
+    if spec.get("_forces_only"):
+        # no structure files: the supercells go to the peer as objects, only the calculator's force output is a file
+        units = get_default_physical_units(calc)
+        ph = Phonopy(cell, supercell_matrix=w.supercell_matrix, primitive_matrix=w.primitive_matrix, factor=units["factor"], calculator=calc, log_level=0)
+        dist = spec["distance"]
+        dist = get_default_displacement_distance(calc) if dist is None else dist / L
+        ph.generate_displacements(distance=dist, is_plusminus=spec["is_plusminus"])
+        ph.save("phonopy_disp.yaml")
+        sc = ph.supercell
+        out.update(
+            new_files=[], natom=len(sc), ndisp=len(ph.supercells_with_displacements),
+            supercell=dict(lattice=np.array(sc.cell), positions=np.array(sc.scaled_positions), symbols=list(sc.symbols)),
+            displaced=[dict(positions=np.array(c.scaled_positions)) for c in ph.supercells_with_displacements],
+            dataset=ph.dataset, unit_symbols=list(cell.symbols), unitcell=dict(lattice=np.array(cell.cell), positions=np.array(cell.scaled_positions), symbols=list(cell.symbols)),
+            species_in_file_order=list(dict.fromkeys(cell.symbols)),
+        )
+        sc_A = PhonopyAtoms(symbols=sc.symbols, cell=np.array(sc.cell) * L, scaled_positions=sc.scaled_positions)
+        out["fc_model"] = w.force_constants(sc_A)
+        out["born"] = None
+        if w.nac_method and spec["with_born"] and units["nac_factor"] is not None:  # no NAC factor documented for this calculator: NAC not offered
+            n = w.nac_params(ph.primitive)
+            if n is not None:
+                from phonopy.file_IO import write_BORN
+
+                write_BORN(ph.primitive, n["born"], n["dielectric"], filename="BORN")
+                out["born"] = {"born": n["born"], "dielectric": n["dielectric"]}
+        out["primitive_matrix"] = np.array(ph.primitive_matrix)
+        return out
     info0 = peers.structure_info(calc, cell.symbols)
     fname = {"turbomole": "ucell"}.get(calc, "unitcell.in")
     with contextlib.redirect_stdout(io.StringIO()):
@@ -400,10 +429,13 @@ def execute(spec):
     log.append(("units", calc, core.digest(np.round(uo["freq"], 6))))
 
     fired = []
-    if calc in peers.STRUCTURE_ROUNDTRIP:
+    modes = ([False] if calc in peers.STRUCTURE_ROUNDTRIP else []) + ([True] if calc in peers.FORCES_ONLY else [])
+    for forces_only in modes:
+        if forces_only:
+            probes["forces_only_protocol:%s" % calc] = 1
         with simfs.RunDir("c17-") as rd:
             path = rd.path
-            p1 = sub(child_displace, (dict(spec, _interleaved=interleaved), path))
+            p1 = sub(child_displace, (dict(spec, _interleaved=interleaved, _forces_only=forces_only), path))
             violations.extend(p1["violations"])
             if "new_files" in p1:
                 sup = p1["supercell"]
@@ -417,7 +449,25 @@ def execute(spec):
                 cwd = os.getcwd()
                 os.chdir(path)
                 try:
+                    def read_displaced(idx):
+                        """the displaced supercell idx (0-based) as the peer sees it"""
+                        if forces_only:
+                            return PhonopyAtoms(symbols=sup["symbols"], cell=sup["lattice"], scaled_positions=p1["displaced"][idx]["positions"])
+                        with contextlib.redirect_stdout(io.StringIO()):
+                            return peers.read_structure(calc, displaced_file_for(calc, p1["new_files"], idx + 1))[0]
+
                     for i in range(p1["ndisp"]):
+                        if forces_only:
+                            rc = read_displaced(i)
+                            u_ = np.array(p1["displaced"][i]["positions"]) - np.array(sup["positions"])
+                            u_ -= np.rint(u_)
+                            amp = float(np.max(np.linalg.norm(u_ @ np.array(sup["lattice"]), axis=1))) or 1.0
+                            disp_amp = amp if disp_amp is None else min(disp_amp, amp)
+                            steps["peer_jobs"] += 1
+                            F, perm = peers.harmonic_forces_for_file(rc, ideal_A, p1["fc_model"], L)
+                            peers.write_force_output(calc, "output-%03d" % (i + 1), rc, F, energy=-10.0 - i)
+                            outputs.append("output-%03d" % (i + 1))
+                            continue
                         fn = displaced_file_for(calc, p1["new_files"], i + 1)
                         if fn is None:
                             V("structure-roundtrip", "%s:displaced-supercell-file-missing" % calc, index=i + 1, files=p1["new_files"][:10])
@@ -455,7 +505,7 @@ def execute(spec):
                             outputs.append(out_name)
                     if any_reordered:
                         probes["atoms_regrouped_by_species_in_written_files"] = 1
-                    if calc in peers.PEER_CALCULATORS and len(outputs) == p1["ndisp"] and not any(v["class"] == "structure-roundtrip" for v in violations):
+                    if calc in peers.PEER_CALCULATORS and len(outputs) == p1["ndisp"] and (forces_only or not any(v["class"] == "structure-roundtrip" for v in violations)):
                         # ---------------- delivery with faults
                         frng = core.rng_of(spec["fault_seed"], "delivery")
                         files = list(outputs)
@@ -509,9 +559,7 @@ def execute(spec):
                                 # output left over from an earlier displacement set (3x larger displacements)
                                 j = frng.randrange(len(files))
                                 idx = outputs.index(files[j]) if files[j] in outputs else 0
-                                fnj = displaced_file_for(calc, p1["new_files"], idx + 1)
-                                with contextlib.redirect_stdout(io.StringIO()):
-                                    rcj, _ = peers.read_structure(calc, fnj)
+                                rcj = read_displaced(idx)
                                 pos = np.array(rcj.scaled_positions)
                                 ideal_in_file_order = None
                                 ok_, how_, order_ = same_crystal(sup["lattice"], sup["positions"], sup["symbols"], rcj.cell, rcj.scaled_positions, rcj.symbols, tol=0.2)
